@@ -359,7 +359,8 @@ def plan(tier):
                 ("chain3", CHAIN_TREES, ["chain3"], "none", ["same"], 1, 0),
                 ("inout", ["io4"], ["inout"], "none", ["same"], 1, 0),
                 ("sib", ["io4"], ["sib"], "none", ["same"], 8, s % 8),
-                ("dotted", [], [], "dotted", ["same"], 1, 0)]
+                ("dotted", [], [], "dotted", ["same"], 1, 0),
+                ("cycle", ["cyc4", "alias4"], ["cycle"], "none", ["same"], 4, s % 4)]
     return [("t3", ["deep3", "wide3", "dir3"], FAMILIES, "none", ["same"], 1, 0),
             ("wide3g", ["wide3"], ["list", "imp1"], "none", ["all"], 1, 0),
             ("alias4", ["alias4"], FAMILIES, "none", ["same"], 1, 0),
@@ -371,7 +372,8 @@ def plan(tier):
             ("full6", ["full6"], FAMILIES, "none", ["same"], 12, s % 12),
             ("full7", ["full7"], FAMILIES, "none", ["same"], 32, s % 32),
             ("disc", [], [], "full", ["same"], 1, 0),
-            ("dotted", [], [], "dotted", ["same"], 1, 0)]
+            ("dotted", [], [], "dotted", ["same"], 1, 0),
+            ("cycle", ["cyc4", "mix4", "alias4", "full6"], ["cycle"], "none", ["same"], 1, 0)]
 
 
 def spec_to_impl(tier, ev, verd, stats):
@@ -418,7 +420,7 @@ def spec_to_impl(tier, ev, verd, stats):
                     key = "%s@%d:%s" % (f, lvl, c["exp"]["k"])
                     sib_count[key] = sib_count.get(key, 0) + 1
     ev.extra["sibling_scope_classes"] = sib_count
-    missing = [f for f in FAMILIES + ["disc", "chain3", "chain2", "inout", "sib"] if not fam_count.get(f)]
+    missing = [f for f in FAMILIES + ["disc", "chain3", "chain2", "inout", "sib", "cycle"] if not fam_count.get(f)]
     missing += ["sibling " + k for k in ["%s@%d:%s" % (f, lvl, e) for f in SIB_FORMS for lvl in (2, 3) for e in ("item", "err")]
                 if not sib_count.get(k)] + [r for r in REQUIRED_RULES if not rule_count.get(r)]
     # chain-3 x all six orders x same-named module/item in the enclosing scope for each introduced name (block level;
@@ -734,6 +736,25 @@ def replay(path):
     elif "trace_event" in obj:
         d = vlib.workdir(PID, "trace")
         p = os.path.join(d, "replay.ndjson")
+        # run the recorded configuration again (from disk: that route needs no module tree from python) and let TLC judge
+        # the fresh observation
+        e0 = obj["trace_event"]
+        c = dict(e0, fam="random", mods=[[]], sibs=e0.get("sibs", []), forms=e0.get("forms", ["plain"] * 3),
+                 exports=[{"p": it["p"], "n": it["n"], "present": True} for it in e0["items"] if it["n"] in FN_NAMES])
+        res = vlib.run_batch("c13", [harness_case(c)], nproc=1, pid=PID, tag="replay")
+        ev = dict(e0)
+        if vlib.outcome_of(res[0]) == "returned":
+            o = res[0]["r"]["disk"]
+            obs = observed(c, tag_table(c), o)
+            got = []
+            if o["compile"] == "ok":
+                for x in c["exports"]:
+                    t = o["get"].get(".".join(list(x["p"]) + [x["n"]]))
+                    got.append({"p": x["p"], "n": x["n"], "present": t is not None})
+            if obs is not None:
+                ev = dict(e0, route="disk", obs=obs, got=got, sibs=c["sibs"], forms=c["forms"])
+                print("replay: fresh observation from disk:", abstract(obs))
+        obj = dict(obj, trace_event=ev)
         vlib.write_ndjson(p, [obj["trace_event"]])
         r = vlib.validate_trace("TraceScopes", "TraceScopes.cfg", p)
         dev = [t for t in r.prints if t[0] == "DEVIATION"]
